@@ -21,6 +21,33 @@ use rustyline::DefaultEditor;
 #[cfg(feature = "update-notifications")]
 use update_informer::{registry, Check};
 
+// The standard print macros panic when the stream cannot be written (fselect --help | head -1):
+// usage, version and diagnostics are written through these instead, a failed write is ignored.
+macro_rules! print {
+    ($($arg:tt)*) => {{
+        use std::io::Write as _;
+        let _ = write!(std::io::stdout(), $($arg)*);
+    }};
+}
+macro_rules! println {
+    ($($arg:tt)*) => {{
+        use std::io::Write as _;
+        let _ = writeln!(std::io::stdout(), $($arg)*);
+    }};
+}
+macro_rules! eprint {
+    ($($arg:tt)*) => {{
+        use std::io::Write as _;
+        let _ = write!(std::io::stderr(), $($arg)*);
+    }};
+}
+macro_rules! eprintln {
+    ($($arg:tt)*) => {{
+        use std::io::Write as _;
+        let _ = writeln!(std::io::stderr(), $($arg)*);
+    }};
+}
+
 mod config;
 mod expr;
 mod field;
